@@ -46,6 +46,7 @@ void check_C18(Src &s, Ctx &ctx) {
         if (thread_id >= log.inflight.size()) { log.fail("thread id " + std::to_string(thread_id) + " out of range"); return; }
         if (log.inflight[thread_id].fetch_add(1) != 0) log.fail("two model calls with thread id " + std::to_string(thread_id) + " overlap in time");
         long idx; { std::lock_guard<std::mutex> l(log.m); idx = log.calls++; log.samples += (long)k; log.max_id = std::max(log.max_id, (int)thread_id);
+            if (cfg().echo) { printf("  .. model call %ld thread %zu:", idx, thread_id); for (size_t i = 0; i < k; i++) printf(" (%s)", joind(coord_of(x + i * (size_t)d, d)).c_str()); printf("\n"); fflush(stdout); }
             for (size_t i = 0; i < k; i++) { int &c = log.count[coord_of(x + i * (size_t)d, d)]; c++; if (c > 1 && log.error.empty()) log.error = "the model was called twice for the point (" + joind(coord_of(x + i * (size_t)d, d)) + ")"; } }
         latency(lat[(size_t)idx % lat.size()]);
         for (size_t i = 0; i < k; i++) for (int o = 0; o < outs; o++) y[i * (size_t)outs + (size_t)o] = vm(x + i * (size_t)d, d, o, salt);
